@@ -25,7 +25,8 @@ struct RecBuf {
     volatile size_t len;
     volatile long long cur;  // index in progress
     volatile long long done; // number of batch entries finished
-    char data[(8 << 20) - 64];
+    volatile uint64_t snap_eval, snap_nontriv, snap_cnt[NCOUNT]; // worker counters before the case in progress
+    char data[(8 << 20) - 1024];
 };
 static RecBuf *g_rb = nullptr;
 static bool g_in_child = false;
@@ -124,6 +125,10 @@ static std::string sub_worker(Ctx &c, const std::vector<long long> &L, size_t fr
         signal(SIGVTALRM, SIG_DFL);
         for (size_t k = from; k < L.size(); k++) {
             g_rb->cur = L[k];
+            g_rb->snap_eval = c.sh->eval;
+            g_rb->snap_nontriv = c.sh->nontriv;
+            for (int q = 0; q < NCOUNT; q++)
+                g_rb->snap_cnt[q] = c.sh->cnt[q];
             arm_cpu_limit(limit);
             Rep r{c, L[k]};
             runcase(L[k], r);
@@ -161,6 +166,13 @@ static std::string sub_worker(Ctx &c, const std::vector<long long> &L, size_t fr
     *done = g_rb->done;
     if (WIFEXITED(st) && WEXITSTATUS(st) == 0)
         return "";
+    if (g_rb->cur >= 0) {
+        // discard the partial counter increments of the case that died (keeps the counts deterministic)
+        c.sh->eval = g_rb->snap_eval;
+        c.sh->nontriv = g_rb->snap_nontriv;
+        for (int q = 0; q < NCOUNT; q++)
+            c.sh->cnt[q] = g_rb->snap_cnt[q];
+    }
     if (WIFSIGNALED(st)) {
         int sg = WTERMSIG(st);
         if (sg == SIGVTALRM)
